@@ -486,6 +486,57 @@ struct C18StatWorld: World {
   }
 };
 
+// C16, last clause: over the sampling randomness every subset-sum estimate is unbiased. One small weighted stream per run is replayed under
+// many library draw sequences owned by the simulator; the per-item estimate (adjusted weight if sampled, else 0) must average to the item's
+// weight within an empirical-Bernstein bound (Maurer-Pontil) at 1e-13 with the rigorous range bound R = total weight.
+struct C16StatWorld: World {
+  typedef ds::var_opt_sketch<int64_t, talloc<int64_t>> S; typedef ds::var_opt_union<int64_t, talloc<int64_t>> UN;
+  const char* name() const override { return "c16s"; }
+  const char* step_name(int) const override { return "monte_carlo"; }
+  std::string family_of(const Plan& p) const override { static const char* m[] = { "varopt<i64>|unbiased|single", "varopt<i64>|unbiased|union", "varopt<i64>|unbiased|restored" }; return m[p.cfg.empty() ? 0 : p.cfg[5] % 3]; }
+  Plan generate(u64 run_seed, int tier) override { Plan p; p.run_seed = run_seed; Rng r(run_seed, "cfg"); static const int ks[] = { 1, 2, 3, 4, 5, 7 };
+    const i64 k = r.pick(ks); p.cfg = { k, r.range(k + 1, 22), static_cast<i64>(r.below(8)), static_cast<i64>(r.below(1000)), tier ? 100000 : 40000, static_cast<i64>(r.below(3)), r.pick(ks) }; Step s; s.kind = 1; p.steps.push_back(s); return p; }
+  void execute(const Plan& p, Ctx& ctx) override {
+    alloc_state().reset_counters(); alloc_state().budget = static_cast<size_t>(1) << 30;
+    const uint32_t k = static_cast<uint32_t>(p.cfg[0]), k2 = static_cast<uint32_t>(p.cfg[6]); const int n = static_cast<int>(p.cfg[1]), mode = static_cast<int>(p.cfg[5] % 3); const i64 trials = p.cfg[4];
+    std::vector<double> w(static_cast<size_t>(n)); double W = 0; for (int i = 0; i < n; i++) { double x = vo_weight(p.cfg[3] + i * 7, p.cfg[2]); if (x > 64) x = 64; w[static_cast<size_t>(i)] = x; W += x; }
+    std::vector<double> sum(static_cast<size_t>(n), 0), sq(static_cast<size_t>(n), 0); double odd_sum = 0, odd_sq = 0, odd_true = 0; for (int i = 1; i < n; i += 2) odd_true += w[static_cast<size_t>(i)];
+    ctx.begin_step(0, 1); i64 done = 0; bool refused = false;
+    for (i64 t = 0; t < trials && !refused; t++) {
+      SimRandom rnd(mix(p.run_seed, static_cast<u64>(t))); RandomScope rs(rnd);
+      std::vector<double> est(static_cast<size_t>(n), 0);
+      auto read = [&](const S& sk) { for (auto it = sk.begin(); it != sk.end(); ++it) { const int64_t id = (*it).first; if (id >= 0 && id < n) est[static_cast<size_t>(id)] += (*it).second; } };
+      if (mode == 1) {   // the stream is split over two sketches of different k, united
+        S a(k, ds::resize_factor::X8, talloc<int64_t>(1)), b(k2, ds::resize_factor::X8, talloc<int64_t>(1)); const int cut = n / 2;
+        for (int i = 0; i < n; i++) (i < cut ? a : b).update(static_cast<int64_t>(i), w[static_cast<size_t>(i)]);
+        UN u(std::max(k, k2), talloc<int64_t>(1)); u.update(a); u.update(b);
+        try { S r = u.get_result(); read(r); } catch (const std::exception&) { refused = true; ctx.probe("union_get_result_threw"); break; }   // the recorded C16 finding; reported by world c16
+      } else if (mode == 2) {   // checkpoint / restore in mid-stream
+        S a(k, ds::resize_factor::X8, talloc<int64_t>(1)); const int cut = (n * 2) / 3;
+        for (int i = 0; i < cut; i++) a.update(static_cast<int64_t>(i), w[static_cast<size_t>(i)]);
+        auto img = a.serialize(); S b = S::deserialize(img.data(), img.size(), ds::serde<int64_t>(), talloc<int64_t>(1));
+        for (int i = cut; i < n; i++) b.update(static_cast<int64_t>(i), w[static_cast<size_t>(i)]);
+        read(b);
+      } else { S a(k, ds::resize_factor::X8, talloc<int64_t>(1)); for (int i = 0; i < n; i++) a.update(static_cast<int64_t>(i), w[static_cast<size_t>(i)]); read(a);
+        auto odd = a.estimate_subset_sum([](int64_t x) { return (x & 1) != 0; }); odd_sum += odd.estimate; odd_sq += odd.estimate * odd.estimate; }
+      for (int i = 0; i < n; i++) { sum[static_cast<size_t>(i)] += est[static_cast<size_t>(i)]; sq[static_cast<size_t>(i)] += est[static_cast<size_t>(i)] * est[static_cast<size_t>(i)]; }
+      done++;
+    }
+    if (!refused) {
+      const double T = static_cast<double>(done), L = 31.0;
+      auto verdict = [&](double s1, double s2, double truth, const std::string& what) {
+        const double mean = s1 / T, var = std::max(0.0, (s2 - s1 * s1 / T) / (T - 1)), tol = std::sqrt(2 * var * L / T) + 7 * W * L / (3 * (T - 1));
+        if (std::fabs(mean - truth) > tol + 1e-9 * W) ctx.fail("C16|estimate-biased-over-the-sampling-randomness", what + ": mean estimate " + std::to_string(mean) + " over " + std::to_string(done) + " draw sequences, true weight " + std::to_string(truth) + ", allowed deviation " + std::to_string(tol) + " (k=" + std::to_string(k) + (mode == 1 ? "/" + std::to_string(k2) : std::string()) + ", " + std::to_string(n) + " items, total " + std::to_string(W) + ")");
+        ctx.check(); };
+      for (int i = 0; i < n; i++) verdict(sum[static_cast<size_t>(i)], sq[static_cast<size_t>(i)], w[static_cast<size_t>(i)], "item " + std::to_string(i));
+      if (mode == 0) verdict(odd_sum, odd_sq, odd_true, "subset of odd items");
+      ctx.nontrivial = true; ctx.probe("monte_carlo_streams"); ctx.probe("draw_sequences", static_cast<u64>(done));
+    }
+    ctx.t(static_cast<u64>(done)); ctx.t(static_cast<u64>(sum[0] * 1024)); ctx.t(static_cast<u64>(sum[static_cast<size_t>(n - 1)] * 1024));
+    if (!alloc_state().errors.empty()) ctx.fail("C16|allocator-misuse", alloc_state().errors[0]);
+  }
+};
+
 // ================================================================== C20 density
 template<typename T> struct gauss { template<typename V1, typename V2> T operator()(const V1& a, const V2& b) const { double acc = 0; for (size_t i = 0; i < a.size(); i++) { double d = static_cast<double>(a[i]) - static_cast<double>(b[i]); acc += d * d; } return static_cast<T>(std::exp(-acc)); } };
 template<typename T> struct laplace { template<typename V1, typename V2> T operator()(const V1& a, const V2& b) const { double acc = 0; for (size_t i = 0; i < a.size(); i++) acc += std::fabs(static_cast<double>(a[i]) - static_cast<double>(b[i])); return static_cast<T>(1.0 / (1.0 + acc)); } };
@@ -560,7 +611,7 @@ struct C20World: World {
   }
 };
 
-struct Init { Init() { static C12World a; static C14World b; static C17World c; static C16World d; static C18World e; static C20World f; static C18StatWorld g; for (World* w : std::vector<World*>{ &a, &b, &c, &d, &e, &f, &g }) registry().push_back(w); } } init_;
+struct Init { Init() { static C12World a; static C14World b; static C17World c; static C16World d; static C18World e; static C20World f; static C18StatWorld g; static C16StatWorld h; for (World* w : std::vector<World*>{ &a, &b, &c, &d, &e, &f, &g, &h }) registry().push_back(w); } } init_;
 } // namespace
 
 int main(int argc, char** argv) { sim::selftest_hashes(); return sim::sim_main(argc, argv); }
